@@ -5403,7 +5403,9 @@ class PyCdlib:
     def rm_eltorito(self):
         # type: () -> None
         """
-        Remove the El Torito boot record (and Boot Catalog) from the ISO.
+        Remove the El Torito boot record (and Boot Catalog) from the ISO.  If
+        the ISO is an isohybrid one, the hybridization is removed as well,
+        since it boots through the El Torito boot file.
 
         Parameters:
          None.
@@ -5473,6 +5475,11 @@ class PyCdlib:
         num_bytes_to_remove += len(self.eltorito_boot_catalog.record())
 
         self.eltorito_boot_catalog = None
+
+        # The hybrid MBR (and GPT/APM) describe the boot files of the catalog
+        # that is now gone; left behind they would point at whatever ends up
+        # in those sectors.
+        self.isohybrid_mbr = None
 
         self._finish_remove(num_bytes_to_remove, True)
 
